@@ -1,6 +1,7 @@
 package main
 
 import (
+	"go/types"
 	"fmt"
 	"sort"
 	"strings"
@@ -198,11 +199,89 @@ func dedupDelta(ds []delta) []delta {
 }
 
 func runC08(e *Engine, r *Report, tier string) {
-	r.Explanation = "C08, structural necessary conditions. R1 (signed-operation balance): for every conversion routine — an fx-core function that, with its fx-core callees inlined, performs both a bank value operation and an ERC-20 value operation — on every success path the change of the coin escrow (erc20 module account and the wrapper contract) equals the change of the ERC-20 supply, and the change of the module's ERC-20 escrow equals the change of the coin supply (operations: account->escrow +1, escrow->account -1, mint coins +escrow +supply, burn coins -escrow -supply, token mint/burn, token transfer to/from the module); every operation's amount is rooted in the routine's single amount parameter; coins are taken only from the sender parameter and paid only to the receiver parameter; R2 no keeper-level EVM execution (a fresh committed StateDB) is reachable from the native-action closure of a precompile — token calls under a live EVM must go through the running EVM; R3 the pair record and its by-denom / by-contract indexes (erc20 0x01,0x02,0x03) are written and deleted only together, a lone write of 0x01 only re-stores a pair that was just read; R4 the blocked-address test of a conversion is applied to the message's receiver; R5 every classifier of the IBC-voucher namespace (HasPrefix/TrimPrefix with a constant starting with `ibc`) tests the full prefix `ibc/` — siblings that decide lock-vs-burn and the backing escrow must agree on what a voucher is. Not decided: contract bytecode, ERC-20 balances summing to supply, arbitrary histories."
+	r.Explanation = "C08, structural necessary conditions. R1 (signed-operation balance): for every conversion routine — an fx-core function that, with its fx-core callees inlined, performs both a bank value operation and an ERC-20 value operation — on every success path the change of the coin escrow (erc20 module account and the wrapper contract) equals the change of the ERC-20 supply, and the change of the module's ERC-20 escrow equals the change of the coin supply (operations: account->escrow +1, escrow->account -1, mint coins +escrow +supply, burn coins -escrow -supply, token mint/burn, token transfer to/from the module); every operation's amount is rooted in the routine's single amount parameter; coins are taken only from the sender parameter and paid only to the receiver parameter; R2 no keeper-level EVM execution (a fresh committed StateDB) is reachable from the native-action closure of a precompile — token calls under a live EVM must go through the running EVM; R3 the pair record and its by-denom / by-contract indexes (erc20 0x01,0x02,0x03) are written and deleted only together, a lone write of 0x01 only re-stores a pair that was just read; R4 the blocked-address test of a conversion is applied to the message's receiver; R5 every classifier of the IBC-voucher namespace (HasPrefix/TrimPrefix with a constant starting with `ibc`) tests the full prefix `ibc/` — siblings that decide lock-vs-burn and the backing escrow must agree on what a voucher is; R6 an index entry (by-contract, by-denom, alias) that is deleted because a lookup found it is deleted under the very key that was looked up. Not decided: contract bytecode, ERC-20 balances summing to supply, arbitrary histories."
 	r.Rule("R1", "per success path: Δescrow = ΔtokenSupply and ΔtokenEscrow = ΔcoinSupply; single amount; sender debited, receiver credited", 5, "conversion routines found by their operations")
 	r.Rule("R2", "no nested keeper-level EVM under a precompile native action", 1, "ExecuteNativeAction closures")
 	r.Rule("R3", "token-pair record and indexes co-written", 3, "writers of erc20:01/02/03")
 	r.Rule("R4", "blocked-address test applies to the receiver", 2, "conversion handlers")
+	r.Rule("R6", "an index entry deleted because a lookup found it is deleted under the key that was looked up", 1, "lookup-guarded deletes of erc20 index families")
+	{
+		nsites := 0
+		for _, fn := range e.Funcs {
+			if isAuxPkg(fnPkgPath(fn)) || !strings.Contains(fnPkgPath(fn), "x/erc20/keeper") {
+				continue
+			}
+			for _, fam := range []string{"02", "03", "05"} {
+				var dels, gets []ssa.CallInstruction
+				allCalls(fn, func(c ssa.CallInstruction) {
+					if len(e.calleesOf(c)) == 0 {
+						return // raw store calls: the helpers below are the unit
+					}
+					if e.callDirectOp(c, "erc20", fam, "delete") {
+						dels = append(dels, c)
+					} else if e.callDirectOp(c, "erc20", fam, "get,has") {
+						gets = append(gets, c)
+					}
+				})
+				strArgs := func(c ssa.CallInstruction) []string {
+					var out []string
+					for _, a := range nonCtxArgs(c) {
+						if b, ok := a.Type().Underlying().(*types.Basic); ok && b.Kind() == types.String {
+							out = append(out, vkey(a, 0))
+						}
+						if sl, ok := a.(*ssa.Slice); ok { // variadic ...string
+							if arr, ok := sl.X.(*ssa.Alloc); ok && arr.Referrers() != nil {
+								for _, ref := range *arr.Referrers() {
+									if ia, ok := ref.(*ssa.IndexAddr); ok && ia.Referrers() != nil {
+										for _, r2 := range *ia.Referrers() {
+											if st, ok := r2.(*ssa.Store); ok && st.Addr == ssa.Value(ia) {
+												out = append(out, vkey(st.Val, 0))
+											}
+										}
+									}
+								}
+							}
+						}
+					}
+					return out
+				}
+				for _, d := range dels {
+					// the lookups whose result guards this delete
+					for _, g := range gets {
+						gv, ok := g.(ssa.Value)
+						if !ok {
+							continue
+						}
+						guards := false
+						for _, gd := range GuardsOf(d) {
+							if e.rootsValue(gd.Cond, gv) {
+								guards = true
+							}
+						}
+						if !guards {
+							continue
+						}
+						nsites++
+						dk, gk := strArgs(d), strArgs(g)
+						same := false
+						for _, a := range dk {
+							for _, b := range gk {
+								if a == b {
+									same = true
+								}
+							}
+						}
+						ck := e.FnKey(fn) + " " + callName(g) + " -> " + callName(d) + " (erc20:" + fam + ")"
+						r.Check(same, "R6", ck, e.InstrPos(d), "the entry deleted is the one that was looked up",
+							"the index entry is deleted under "+strings.Join(dk, ",")+" although the lookup that decided the deletion was made under "+strings.Join(gk, ",")+": the entry that was found stays in the index while the other stores are updated (index and metadata describe different sets)")
+					}
+				}
+			}
+		}
+		if nsites == 0 {
+			r.Fail("R6", "lookup-guarded deletes", "", "UNRESOLVED-ANCHOR: no lookup-guarded delete of an erc20 index family found")
+		}
+	}
 	r.Rule("R5", "every test for the IBC-voucher denomination namespace uses the full prefix `ibc/`", 5, "HasPrefix/TrimPrefix sites with a constant starting with ibc")
 	{
 		// siblings: the classifiers that decide lock-vs-burn and which escrow backs a denomination all ask "is this an IBC
